@@ -195,11 +195,16 @@ func (intp *Interpreter) executeOne(obj Object, execProc bool) error {
 	// 	fmt.Println("|-", intp.stackString(), "|", intp.objectString(obj))
 	// }
 
+	// levelCounted records whether this call already occupies a level of the
+	// execution stack.  A procedure called by name only turns out to be a
+	// procedure after the name has been looked up, see below.
+	levelCounted := false
 	if execProc {
-		if intp.execStackDepth >= 100 {
+		if intp.execStackDepth >= maxExecStackDepth {
 			return intp.e(eExecstackoverflow, "exec stack overflow")
 		}
 		intp.execStackDepth++
+		levelCounted = true
 		defer func() { intp.execStackDepth-- }()
 	}
 
@@ -267,6 +272,16 @@ recurseTail:
 		if execProc {
 			if len(o) == 0 {
 				return nil
+			}
+
+			if !levelCounted {
+				// a procedure called via an executable name
+				if intp.execStackDepth >= maxExecStackDepth {
+					return intp.e(eExecstackoverflow, "exec stack overflow")
+				}
+				intp.execStackDepth++
+				levelCounted = true
+				defer func() { intp.execStackDepth-- }()
 			}
 
 			// use tail recursion
@@ -390,6 +405,7 @@ const (
 	maxArraySize         = 65536
 	maxDictSize          = 65536
 	maxDictStackDepth    = 20
+	maxExecStackDepth    = 100
 	maxOperandStackDepth = 500
 	maxStringSize        = 65536
 )
